@@ -201,19 +201,25 @@ func run(c Case, rec *h.Rec) {
 		rec.Failf("bam.NewReader: %v", err)
 		return
 	}
+	// all records are read first and formatted afterwards: a record must not
+	// change when the reader moves on
+	var readBack []*sam.Record
 	for i := range libRecs {
 		r, err := br.Read()
 		if err != nil {
 			rec.Failf("bam Read(record %d): %v", i, err)
 			return
 		}
+		readBack = append(readBack, r)
+	}
+	br.Close()
+	for i, r := range readBack {
 		b, err := r.MarshalSAM(flagFmt)
 		if err != nil || string(b) != lines[i] {
 			rec.Failf("record %d read back from BAM formats as (err %v)\n  %q\nthe written record as\n  %q", i, err, b, lines[i])
 			return
 		}
 	}
-	br.Close()
 
 	// sam.Reader returns every line as one record
 	nl := "\n"
